@@ -19,11 +19,12 @@ type c04Step struct {
 	Burst   int   `json:"burst"`
 }
 type c04Case struct {
-	SMax  bool      `json:"lifetime_from_s_maxage"`
-	URI   string    `json:"uri"`
-	T     int64     `json:"T"`
-	Age   string    `json:"origin_age"`
-	Steps []c04Step `json:"steps"`
+	ConstETag bool      `json:"constant_etag_large_body"`
+	SMax      bool      `json:"lifetime_from_s_maxage"`
+	URI       string    `json:"uri"`
+	T         int64     `json:"T"`
+	Age       string    `json:"origin_age"`
+	Steps     []c04Step `json:"steps"`
 }
 
 func c04Gen(rnd *rand.Rand, i int) c04Case {
@@ -43,6 +44,7 @@ func c04Gen(rnd *rand.Rand, i int) c04Case {
 		}
 	}
 	c.SMax = rnd.Intn(3) == 0
+	c.ConstETag = rnd.Intn(3) == 0
 	l := ans{Kind: "cacheable", T: t, Age: c.Age}.lifetime()
 	n := 6 + rnd.Intn(10)
 	for j := 0; j < n; j++ {
@@ -66,9 +68,13 @@ type c04Target struct {
 
 func c04RunCase(r *hx.Run, w *W, ps *plans, c c04Case, tg c04Target, rnd *rand.Rand) {
 	a := ans{Kind: "cacheable", T: c.T, Age: c.Age, SMax: c.SMax}
+	if c.ConstETag {
+		// a weak validator that does not change although the content does, on a compressible body
+		a.ETag, a.Size = `W/"same"`, 1800
+	}
 	ps.set(c.URI, &plan{Seq: []ans{a}})
 	defer ps.del(c.URI)
-	m := &entryModel{LenientFresh: true}
+	m := &entryModel{LenientFresh: true, CheckBodyVersion: true}
 	epochs := 0
 	boundaryAt, boundaryAfter := false, false
 	var trace []interface{}
